@@ -1,7 +1,7 @@
 (** C03 — the proved fragment with lifted expressions (model file: definitions only).
 
-    [lsafe_stmts] is [safe_stmts] of Frag.v (DESIGN A.2 order_safe) restricted to
-    chained comparisons whose operands are all lift-free (middle operands call-free):
+    [lsafe_stmts] is [safe_stmts] of Frag.v (DESIGN A.2 order_safe); in a chained comparison the
+    middle operands are lift-free and call-free, the first and last operand may be lifted:
       - a value-position [and]/[or] has syntactically boolean operands,
       - in [a op b], [f(.., a, .., b, ..)], [(.., a, .., b, ..)], [a cmp b]: if an earlier operand
         [a] has a call or a walrus, everything after it is lift-free; otherwise [a] reads no variable
@@ -45,7 +45,7 @@ Fixpoint lsafe_val (e : expr) : bool :=
   | ECmp l rest =>
       match rest with
       | CLast _ r => lsafe_val l && lsafe_val r && seq_ok l (wtargets r) (lift_free r)
-      | CMore _ _ _ => lift_free l && frag_ctail rest
+      | CMore _ _ _ => lsafe_val l && lsafe_ctail rest
       end
   | EBool _ a b => boolish a && boolish b && lsafe_cond a && lsafe_cond b
   | EIf c a b => lsafe_cond c && lsafe_val a && lsafe_val b
@@ -69,11 +69,20 @@ with lsafe_cond (e : expr) : bool :=
   | ECmp l rest =>
       match rest with
       | CLast _ r => lsafe_val l && lsafe_val r && seq_ok l (wtargets r) (lift_free r)
-      | CMore _ _ _ => lift_free l && frag_ctail rest
+      | CMore _ _ _ => lsafe_val l && lsafe_ctail rest
       end
   | EWalrus _ a => lsafe_val a
   | ECall _ args => lsafe_list args
   | ETuple es => lsafe_list es
+  end
+(* chained comparison: middle operands lift-free and call-free; the last operand may be lifted if
+   the middle operand before it reads nothing it re-binds *)
+with lsafe_ctail (t : ctail) : bool :=
+  match t with
+  | CLast _ r => lsafe_val r
+  | CMore _ m rest =>
+      lift_free m && pure m && lsafe_ctail rest &&
+      match rest with CLast _ r => disjoint (reads m) (wtargets r) | CMore _ _ _ => true end
   end.
 
 Definition nt_target (t : target) : bool :=
